@@ -263,7 +263,7 @@ class Gen:
         k = rng.choice(['offset', 'scale', 'parallel', 'linear', 'chain'] if allow_chain else
                        ['offset', 'scale', 'parallel', 'linear'])
         chans = sorted(chans)
-        if rng.random() < 0.04:
+        if rng.random() < 0.07:
             return {'k': 'identity'}, chans
         sub = [c for c in chans if rng.random() < 0.7] or [chans[0]]
         if k == 'offset':
@@ -649,6 +649,13 @@ def fixed_cases():
         out.append({'kind': 'opt', 'step': '1/2', 'tree': cseq, 'S': [{'by': 'name', 'name': 'cs'}], 'G': G})
         out.append({'kind': 'opt', 'step': '1/2', 'tree': {'k': 'rep', 'id': 'r', 'meas': [], 'n': 2, 'body': tb},
                     'S': [{'by': 'name', 'name': 'r'}], 'G': G})
+        # ... meeting the transformation an ArithmeticPT / ParallelChannelPT hands down (mutation M24: x.chain(identity))
+        for S in ([], [{'by': 'name', 'name': 'ar'}]):
+            out.append({'kind': 'opt', 'step': '1/2', 'S': S, 'G': G, 'tree': {
+                'k': 'arith', 'id': 'ar', 'op': '+', 'side': 'l', 'scalar': '3', 'sub': {
+                    'k': 'seq', 'id': None, 'meas': [], 'subs': [tb, A('1', {'A': '1'})]}}})
+            out.append({'kind': 'opt', 'step': '1/2', 'S': S, 'G': G, 'tree': {
+                'k': 'arith', 'id': 'ar', 'op': '-', 'side': 'r', 'scalar': '1', 'sub': tb}})
     # stepped scan whose body rebinds the loop index NAME through a mapping and repeats a hold (seeded change C05-4):
     # collapsing the repetition / the mapping / the loop / everything must not change what is played
     hold = A('2', {'A': ['0', 'i', '1']}, id='hold', meas=[['m', '0', '1']])
@@ -790,6 +797,8 @@ def gen_shape_cases(rng, n):
                 G = rng.choice([{'k': 'offset', 'm': {'A': _fr(g.val() or 1)}},
                                 {'k': 'scale', 'm': {'A': sv(True)}},
                                 {'k': 'linear', 'ins': ['A'], 'outs': ['X'], 'mat': [['2']]},
+                                {'k': 'identity'},
+                                {'k': 'chain', 'ts': [{'k': 'identity'}, {'k': 'offset', 'm': {'A': '1'}}]},
                                 {'k': 'chain', 'ts': [{'k': 'scale', 'm': {'A': '2'}}, {'k': 'offset', 'm': {'A': '1'}}]}])
             names = rng.choice([['w'], ['w'], ['w', 'o'], ['o'], []])
         else:
@@ -1438,6 +1447,8 @@ def gen_script_cases(rng, n, exhaustive=False):
     bases = ['seq', 'atom', 'repseq', 'seqseq', 'tree']
     triggers = ['pad', 'final_values', 'initial_values', 'compile', 'none']
     combos = [(b, ch, tr) for b in bases for ch in chains for tr in triggers]
+    if exhaustive:        # every base x single wrapper x trigger; all wrapper pairs on the two sequence bases
+        combos = [x for x in combos if len(x[1]) == 1 or x[0] in ('seq', 'seqseq')]
     if not exhaustive:
         must = [(b, (w,), tr) for b in ('seq', 'seqseq') for w in ('iter', 'par') for tr in ('pad', 'final_values')]
         rest = [x for x in combos if x not in must]
@@ -1634,8 +1645,8 @@ def gen_cases(rng, tier, ctx):
         cases += gen_rebind_cases(rng, 400)
         cases += gen_shape_cases(rng, 800)
         cases += gen_ctor_cases(rng, 1200)
-        cases += gen_script_cases(rng, 600, exhaustive=True)
-        cases += gen_script_cases(rng, 600)
+        cases += gen_script_cases(rng, 200, exhaustive=True)
+        cases += gen_script_cases(rng, 500)
     return cases
 
 
